@@ -833,6 +833,11 @@ func (c *Conn) advanceFrame() (int, error) {
 			return noFrame, err
 		}
 		c.readRemaining = int64(binary.BigEndian.Uint64(p))
+
+		// The most significant bit of a 64 bit length MUST be 0, see section 5.2 of RFC 6455.
+		if c.readRemaining < 0 {
+			return noFrame, c.handleProtocolError("frame length with the most significant bit set")
+		}
 	}
 
 	// 4. Handle frame masking.
@@ -855,6 +860,12 @@ func (c *Conn) advanceFrame() (int, error) {
 	if frameType == continuationFrame || frameType == TextMessage || frameType == BinaryMessage {
 
 		c.readLength += c.readRemaining
+
+		// Don't allow the message size to overflow in the presence of a large frame length.
+		if c.readLength < 0 {
+			return noFrame, ErrReadLimit
+		}
+
 		if c.readLimit > 0 && c.readLength > c.readLimit {
 			c.WriteControl(CloseMessage, FormatCloseMessage(CloseMessageTooBig, ""), time.Now().Add(writeWait))
 			return noFrame, ErrReadLimit
